@@ -35,6 +35,17 @@ impl AnalysisHost {
         }
     }
 
+    /// Blocks until every outstanding `Analysis` snapshot has been dropped.
+    ///
+    /// Every write to the database waits for the snapshots anyway; a caller that holds a lock
+    /// the snapshot owners need must wait *before* taking that lock.
+    pub fn wait_for_snapshots(&mut self) {
+        use salsa::Database;
+        self.db
+            .salsa_runtime_mut()
+            .synthetic_write(salsa::Durability::LOW);
+    }
+
     pub fn set_file_content(&mut self, file_id: FileId, text: Arc<str>) {
         self.db.set_file_content(file_id, text);
     }
